@@ -223,6 +223,46 @@ def _wiring_table(ck: Checker, prog: Program, f, fq: str, lp: ast.For, rec: str)
                 bad["settings wiring"].append(f"filter corners are {fl[0].args[1:]}")
             # windows handed on
             ext = named("extend")
+            fused = None
+            if not ext:
+                # one pass over the windows that detrends (when configured) and collects each window: `for w in V: ...; out.append(w)`
+                for e in r["events"]:
+                    if e[0] == "loop" and isinstance(e[3], ast.For) and isinstance(e[3].target, ast.Name) and any(True for _ in calls_in(e[3], "append")):
+                        st_ = e[3]
+                        env_f = dict(l.snaps[id(st_)][0])
+                        seq_f = specialise(PathTable(prog, f.module, structured=True, unroll=True)._T(env_f).tr(st_.iter), world)
+                        env_f[st_.target.id] = R("<window>")
+                        sub_f = [x for x in outcomes(PathTable(prog, f.module, env=env_f, structured=True, unroll=True).leaves(st_.body), world) if x["exit"] == "fall"]
+                        if len(sub_f) != 1:
+                            raise AnalysisError(f"{fq}: the pass over the windows is not decided by the settings")
+                        calls_f = [x for x in sub_f[0]["events"] if x[0] == "call"]
+                        apps = [x[2] for x in calls_f if getattr(getattr(x[2], "func", None), "__name__", "") == "append"]
+                        dets = [specialise(x[2], world) for x in calls_f if getattr(getattr(x[2], "func", None), "__name__", "") == "detrend"]
+                        if len(apps) == 1 and apps[0].args[-1] == R("<window>"):
+                            # the window must be detrended before it is handed on
+                            names_f = [getattr(getattr(x[2], "func", None), "__name__", "") for x in calls_f]
+                            if dets and names_f.index("detrend") > names_f.index("append"):
+                                bad["receivers"].append("a window is handed on before it is detrended")
+                            fused = (seq_f, dets)
+            if fused is not None:
+                V, dets = fused
+                if isinstance(V, sp.Piecewise):
+                    raise AnalysisError(f"{fq}: the windows handed on ({V}) are not decided by the settings")
+                if world[WL] != NONE and V != F("split")(REC, G_WL):
+                    bad["settings wiring" if getattr(getattr(V, "func", None), "__name__", "") == "split" and V.args[0] == REC else "receivers"].append(f"with a window length the windows are {V}")
+                elif world[WL] == NONE and V != sp.Tuple(REC):
+                    bad["receivers"].append(f"without a window length the windows are {V}")
+                wanted = world[DET] == G_DET
+                if bool(dets) != wanted:
+                    bad["detrend"].append(f"windows are {'detrended' if dets else 'not detrended'} when the configured type is {world[DET]}")
+                for d_ in dets:
+                    if d_.args[0] != R("<window>"):
+                        bad["receivers"].append("detrend is not applied once to each window")
+                    elif len(d_.args) < 2 or d_.args[1] != G_DET:
+                        bad["detrend type"].append(f"detrend type is {d_.args[1:]}")
+                if len(dets) > 1:
+                    bad["receivers"].append("detrend is not applied once to each window")
+                continue
             if len(ext) != 1:
                 raise AnalysisError(f"{fq}: expected one extend() of the output list per record")
             V = ext[0].args[1]
@@ -312,9 +352,15 @@ def _r1(ck: Checker, prog: Program):
             ck.violation("C10.R1", fq, "filter unconditional", "the filter step is conditional or repeated", loc=f.loc(F))
         p = parent_of(p)
     # output order: windows extended per record in order
-    ext = [c for c in calls_in(lp, "extend") if unparse(c.func.value) == "preprocessed_records"]
     rets = [r for r in own_nodes(f.node) if isinstance(r, ast.Return)]
-    if len(ext) == 1 and parent_of(_stmt_of(ext[0])) is lp and len(rets) == 1 and unparse(rets[0].value) == "preprocessed_records" \
+    out_name = rets[0].value.id if len(rets) == 1 and isinstance(rets[0].value, ast.Name) else None
+    ext = [c for c in calls_in(lp, "extend") if unparse(c.func.value) == out_name]
+    # ... or appended one by one in a pass over the record's windows, in window order, none skipped
+    app_loops = [x for x in lp.body if isinstance(x, ast.For) and isinstance(x.target, ast.Name) and not x.orelse
+                 and [unparse(c.args[0]) for c in calls_in(x, "append") if unparse(c.func.value) == out_name and c.args] == [x.target.id]
+                 and all(parent_of(_stmt_of(c)) is x for c in calls_in(x, "append") if unparse(c.func.value) == out_name)]
+    collected = (len(ext) == 1 and parent_of(_stmt_of(ext[0])) is lp and not app_loops) or (not ext and len(app_loops) == 1)
+    if collected and out_name is not None \
             and not any(isinstance(x, (ast.Break, ast.Continue)) for x in ast.walk(lp)):
         ck.ok("C10.R1", fq, "windows of every record collected in order", nontrivial=False)
     else:
